@@ -6,6 +6,8 @@ use core::ec::{EcPointTrait, EcStateTrait};
 use core::hash::{HashStateTrait, HashStateExTrait};
 use core::poseidon::PoseidonTrait;
 use core::pedersen::PedersenTrait;
+use core::nullable::{NullableTrait, match_nullable, FromNullableResult};
+use core::box::BoxTrait;
 "#;
 
 pub const FUNCS: &[&str] = &[
@@ -259,6 +261,152 @@ pub const FUNCS: &[&str] = &[
         Option::Some(nz) => core::felt252_div(a, nz),
         Option::None => 0,
     }
+}
+"#,
+    // Containers over non-copyable elements (added after seeded change C15-r3: a libfunc signature that
+    // is only wrong for non-duplicatable element types).
+    r#"fn n_span_multi_pop_front(a: Array<Array<felt252>>) -> usize {
+    let mut s = a.span();
+    match s.multi_pop_front::<2>() {
+        Option::Some(b) => {
+            let arr: @[Array<felt252>; 2] = b.as_snapshot().unbox();
+            arr.span().len() + s.len()
+        },
+        Option::None => 0,
+    }
+}
+"#,
+    r#"fn n_span_multi_pop_back(a: Array<ByteArray>) -> usize {
+    let mut s = a.span();
+    match s.multi_pop_back::<3>() {
+        Option::Some(b) => {
+            let arr: @[ByteArray; 3] = b.as_snapshot().unbox();
+            let sp = arr.span();
+            sp.at(0).len() + sp.at(2).len() + s.len()
+        },
+        Option::None => 1,
+    }
+}
+"#,
+    r#"fn n_span_pop_front(a: Array<Array<u8>>) -> usize {
+    let mut s = a.span();
+    let mut t = 0;
+    while let Option::Some(x) = s.pop_front() {
+        t += x.len();
+    }
+    t
+}
+"#,
+    r#"fn n_span_get(a: Array<Array<felt252>>, i: usize) -> usize {
+    match a.span().get(i) {
+        Option::Some(b) => b.unbox().len(),
+        Option::None => 99,
+    }
+}
+"#,
+    r#"fn n_array_of_arrays(x: felt252) -> usize {
+    let mut outer: Array<Array<felt252>> = array![];
+    outer.append(array![x, 1]);
+    outer.append(array![x]);
+    let first = outer.pop_front().unwrap();
+    let mut first = first;
+    first.append(3);
+    first.len() + outer.len()
+}
+"#,
+    r#"fn n_option_array(x: felt252, some: bool) -> usize {
+    let o: Option<Array<felt252>> = if some { Option::Some(array![x, x]) } else { Option::None };
+    match o {
+        Option::Some(mut a) => { a.append(1); a.len() },
+        Option::None => 0,
+    }
+}
+"#,
+    r#"fn n_box_array(x: felt252) -> usize {
+    let b = BoxTrait::new(array![x, 2, 3]);
+    let mut a = b.unbox();
+    a.append(4);
+    a.len()
+}
+"#,
+    r#"fn n_nullable_array(x: felt252, some: bool) -> usize {
+    let n: Nullable<Array<felt252>> = if some { NullableTrait::new(array![x]) } else { Default::default() };
+    match match_nullable(n) {
+        FromNullableResult::Null => 0,
+        FromNullableResult::NotNull(b) => b.unbox().len() + 1,
+    }
+}
+"#,
+    r#"fn n_dict_nullable_span(x: felt252) -> usize {
+    let mut d: Felt252Dict<Nullable<Span<felt252>>> = Default::default();
+    d.insert(1, NullableTrait::new(array![x, 2].span()));
+    let v = d.get(1);
+    match match_nullable(v) {
+        FromNullableResult::Null => 0,
+        FromNullableResult::NotNull(b) => b.unbox().len(),
+    }
+}
+"#,
+    r#"fn n_span_slice(a: Array<Array<felt252>>) -> usize {
+    let s = a.span();
+    if s.len() < 2 {
+        return 0;
+    }
+    let t = s.slice(1, s.len() - 1);
+    t.at(0).len()
+}
+"#,
+    r#"fn n_tuple_snapshot(x: felt252) -> usize {
+    let pair = (array![x], array![x, x]);
+    let (a, b) = @pair;
+    let r = a.len() + b.len();
+    let (mut c, _d) = pair;
+    c.append(1);
+    r + c.len()
+}
+"#,
+    r#"fn n_span_multi_pop_tuple(a: Array<(u8, Array<felt252>)>) -> usize {
+    let mut s = a.span();
+    match s.multi_pop_front::<1>() {
+        Option::Some(b) => {
+            let arr: @[(u8, Array<felt252>); 1] = b.as_snapshot().unbox();
+            arr.span().len()
+        },
+        Option::None => 0,
+    }
+}
+"#,
+    r#"fn n_bytearray_array(x: u8) -> usize {
+    let mut names: Array<ByteArray> = array![];
+    names.append(format!("n{}", x));
+    names.append("abc");
+    let mut t = 0;
+    for n in names.span() {
+        t += n.len();
+    }
+    t
+}
+"#,
+    // Items of every feature kind (deprecated with and without the allowing attribute, unstable module,
+    // unstable trait): added after seeded change C20-r3 (the cache decoded `Deprecated` as `Internal`).
+    r#"fn f_deprecated_item(a: u128, b: u128) -> u128 {
+    core::integer::u128_wrapping_add(a, b)
+}
+"#,
+    r#"fn f_deprecated_item_allowed(a: u128, b: u128) -> u128 {
+    core::integer::u128_wrapping_sub(a, b)
+}
+"#,
+    r#"fn f_unstable_module(a: u8) -> u16 {
+    core::internal::bounded_int::upcast(a)
+}
+"#,
+    r#"fn f_unstable_trait(a: @ByteArray) -> usize {
+    core::byte_array::ByteSpanTrait::len(core::byte_array::ToByteSpanTrait::span(a))
+}
+"#,
+    r#"fn f_deprecated_allowed_by_lint(a: u64, b: u64) -> u128 {
+    core::integer::u64_wide_mul(a, b)
 }
 "#,
 ];
